@@ -748,7 +748,7 @@ hdf_write_var(XDR *xdrs, NC *handle, NC_var **var)
     uint16     ref;
     int8       outNT;
     uint8      tbuf[2 + ((H4_MAX_VAR_DIMS + 1) * 8)]; /* temporary buffer */
-    int32      tags[H4_MAX_NC_ATTRS + H4_MAX_VAR_DIMS + 2];
+    int32      tags[H4_MAX_NC_ATTRS + H4_MAX_VAR_DIMS + 10]; /* dims, attrs, and up to 5 more (VH, SD, NT, SDD, NDG): same room as refs[] */
     int32      refs[H4_MAX_NC_ATTRS + H4_MAX_VAR_DIMS + 10];
     uint16     nt_ref, rank;
     int32      GroupID, val, vs_id;
